@@ -27,7 +27,8 @@ type TimerCase struct {
 	Reps     int     `json:"reps"` // -1 unbounded
 	EndMs    int64   `json:"endMs"` // -1 none
 	DueMs    int64   `json:"dueMs"` // date/duration
-	Steps    []int64 `json:"steps"` // absolute clock values (ns after epoch), non-decreasing
+	Steps    []int64 `json:"steps"` // absolute clock values (ns after epoch); non-decreasing unless Back
+	Back     bool    `json:"back"`  // the clock is also set back (mock clock, timer alone)
 	CancelAt int     `json:"cancelAt"` // cancel before this step index (-1 never)
 	HostClk  bool    `json:"hostClock"`
 	Proc     bool    `json:"process"` // (c) a process with a timer catch event
@@ -281,6 +282,7 @@ func genC13(d *Draw) Case {
 	// clock history: up to 6 non-decreasing values from the grid {before, 1ns before, at, 1ns after, far beyond}
 	n := 1 + d.N(6)
 	cur := int64(0)
+	t.Back = d.N(4) == 3
 	for i := 0; i < n; i++ {
 		m := marks[d.N(len(marks))]
 		var v int64
@@ -298,8 +300,11 @@ func genC13(d *Draw) Case {
 		case 5:
 			v = cur // the clock does not move
 		}
-		if v < cur {
+		if v < cur && !t.Back {
 			v = cur
+		}
+		if v < 0 {
+			v = 0
 		}
 		cur = v
 		t.Steps = append(t.Steps, v)
@@ -342,6 +347,23 @@ func genC13(d *Draw) Case {
 				t.SecondAt = d.N(len(t.Steps))
 			}
 		}
+	}
+	if t.Back && (t.HostClk || t.Proc || t.NoSettle) {
+		// these modes have a clock that only moves forward (fake wall clock), or an outcome that is determined
+		// only for a monotonic history
+		t.Back = false
+		for i := 1; i < len(t.Steps); i++ {
+			if t.Steps[i] < t.Steps[i-1] {
+				t.Steps[i] = t.Steps[i-1]
+			}
+		}
+	}
+	if t.Back {
+		back := false
+		for i := 1; i < len(t.Steps); i++ {
+			back = back || t.Steps[i] < t.Steps[i-1]
+		}
+		t.Back = back
 	}
 	return t
 }
@@ -566,6 +588,10 @@ func checkC13(cc Case, r *simrt.Result) *Outcome {
 	probe(o, "process-level", t.Proc)
 	probe(o, "two-instances-one-builder", t.Proc && t.SecondAt >= 0)
 	probe(o, "cycle", t.Kind == "cycle")
+	probe(o, "clock-set-back", t.Back)
+	if t.Back {
+		t.env.fault("clock-set-back")
+	}
 	o.Sample = map[string]any{"definition": t.Spec, "clock_steps_ns": t.Steps, "cancelBeforeStep": t.CancelAt, "hostClock": t.HostClk, "process": t.Proc, "fired": fires}
 	return o
 }
